@@ -6,7 +6,12 @@ Spec:   Observer.tla (requirement machine incl. the statistics counter
         machine), ObserverImpl.tla (operation pipeline with observer hooks in
         code order; totality of the hooks per configuration x response class;
         the three legacy hook shapes must fail), ObserverTrace.tla.
-Binding: every cell <operation, scripted server behaviour, observer
+        ObserverImpl's value universe of the recorder conversion: ArgShapes
+        (listed / plain_float / iterable_not_list / rejected) and the reply
+        class ok_untyped_real_key; RecorderConversionPartial=TRUE (toyaml()
+        raising TypeError for every type outside its list) must fail.
+Binding: every cell <operation (incl. the argument-shape variants generated
+        by _add_arg_shape_variants), scripted server behaviour, observer
         configuration> is executed on a real WBEMConnection whose session has a
         scripted transport adapter, once bare and once configured; outcomes,
         statistics snapshots, last_raw_* and a password scan of all observer
@@ -944,7 +949,20 @@ def run(ctx):
         "outcome equality: canonical digest of the returned CIM objects, or "
         "exception class plus its first arguments; timing fields excluded",
         "log destination 'file' only; logger names api/http/all; operation "
-        "shapes: " + ", ".join(sorted(OPS)),
+        "shapes: " + ", ".join(sorted(o for o in OPS if o not in ARGCLASS)),
+        "argument shapes outside TestClientRecorder.toyaml()'s type list "
+        "(ObserverImpl.ArgShapes): %d variants <Op>.<position>=<type> = "
+        "{%s} at every kind of argument position (rejected by the "
+        "operation), {%s} as InvokeMethod Params (accepted), plain float "
+        "key bindings in argument paths (accepted); replies with untyped "
+        "numeric KEYVALUEs holding %s / INF / -INF" % (
+            len(ARGCLASS), ", ".join(sorted(FOREIGN)),
+            ", ".join(sorted(PAIR_ITERABLES)), REAL_KEYS),
+        "exception messages are compared with object addresses (0x...) "
+        "masked",
+        "after the first rejected event of a history the remaining events "
+        "are judged one by one by TLC with the statistics snapshot taken "
+        "relative to the previous snapshot of the same operation name",
     ]
 
 
